@@ -94,6 +94,7 @@ type Sim struct {
 	pubNode    map[int]int       // rerunner -> node of its published computation
 	expectRoot map[int64]bool    // goroutine is between r.mu.Lock and the compute.begin of the rerunner's computation
 	resNode    map[int]bool      // node ids of Resources (slots and InvalidateAfter)
+	phPtr      map[uintptr]bool  // placeholder dependants of AddDependency outside a rerunner (&node{released: true})
 	sawKeyLock bool
 	active     int32
 }
@@ -221,8 +222,16 @@ func (s *Sim) record(gid int64, point string, args []interface{}) {
 	case "reactive.strobe.snapshot":
 		e.a, e.list = s.id(args[0]), s.idList(args[1])
 	case "reactive.invalidate.noop", "reactive.release.enter", "reactive.release.noop":
+		if s.phPtr[ptrOf(args[0])] {
+			e.kind = "phinv"
+			break
+		}
 		e.a = s.id(args[0])
 	case "reactive.invalidate.mark":
+		if s.phPtr[ptrOf(args[0])] {
+			e.kind = "phinv"
+			break
+		}
 		e.a, e.list, e.f1 = s.id(args[0]), s.idList(args[1]), args[2].(bool)
 	case "reactive.release.mark":
 		e.a, e.f1, e.b = s.id(args[0]), args[1].(bool), args[2].(int)
@@ -236,6 +245,17 @@ func (s *Sim) record(gid int64, point string, args []interface{}) {
 			s.releaseDecided(e.a, "the release of a dependant found it should go")
 		}
 	case "reactive.addOut":
+		if p := ptrOf(args[1]); !args[2].(bool) && !s.known(args[1]) {
+			// a released dependant nobody has seen before: the placeholder of AddDependency outside a rerunner
+			s.phPtr[p] = true
+			s.keep = append(s.keep, args[1])
+			e.kind, e.a, e.f2, e.f3 = "outadd", s.id(args[0]), args[3].(bool), args[4].(bool)
+			s.used[e.a] = true
+			if e.f3 {
+				s.releaseDecided(e.a, "addOut of a released dependant")
+			}
+			break
+		}
 		e.a, e.b, e.f1, e.f2, e.f3 = s.id(args[0]), s.id(args[1]), args[2].(bool), args[3].(bool), args[4].(bool)
 		s.used[e.a] = true
 		if e.f1 {
@@ -645,6 +665,14 @@ func (s *Sim) inject(in Inj) {
 		if ctx != nil {
 			reactive.PurgeCache(ctx)
 		}
+	case "outside":
+		// AddDependency from a context without a rerunner: registers nothing, but must not disturb those who did
+		x := s.slots[in.Target]
+		x.mu.Lock()
+		res := x.res
+		s.own(ev{kind: "env.outside", env: true, a: in.Target, b: x.id}, "env.outside")
+		x.mu.Unlock()
+		reactive.AddDependency(context.Background(), res, nil)
 	case "flush":
 		// RerunImmediately only shortens the wait of the next run (flushCh); in the model a waiting run is
 		// enabled at any time, so the call has no label of its own
@@ -723,7 +751,7 @@ func RunCase(c *Case) (res *Result) {
 		timers: map[int]int{}, relMarks: map[int]int{}, cleanups: map[int]int{}, used: map[int]bool{}, current: map[int]bool{},
 		timerBud: int32(c.TimerBud), failBud: int32(c.FailBud),
 		depEdges: map[int][]depEdge{}, decided: map[int]bool{}, liveRoot: map[int]bool{}, inProgress: map[int]bool{}, pubNode: map[int]int{},
-		expectRoot: map[int64]bool{}, resNode: map[int]bool{}}
+		expectRoot: map[int64]bool{}, resNode: map[int]bool{}, phPtr: map[uintptr]bool{}}
 	res = &Result{Kinds: map[string]int{}}
 	defer func() {
 		if e := recover(); e != nil {
@@ -733,7 +761,7 @@ func RunCase(c *Case) (res *Result) {
 		}
 	}()
 	old := reactive.WriteThenReadDelay
-	reactive.WriteThenReadDelay = 0
+	reactive.WriteThenReadDelay = time.Duration(c.DelayUs) * time.Microsecond
 	defer func() { reactive.WriteThenReadDelay = old }()
 
 	base := runtime.NumGoroutine()
